@@ -178,12 +178,21 @@ func handleOpen(h *Handler, iq openIQ, e xmlstream.Encoder) error {
 		}))
 		return err
 	}
-	_, err := xmlstream.Copy(e, iq.Result(nil))
-	if err != nil {
+	// A session ID that is in use names the stream that has it: a second stream
+	// with the same ID would take its place in the table and its packets.
+	conn := newConn(h, l.s, iq, true, MaxBufferSize)
+	if !h.addStreamIfFree(iq.Open.SID, conn) {
+		_, err := xmlstream.Copy(e, iq.Error(stanza.Error{
+			Type:      stanza.Cancel,
+			Condition: stanza.NotAcceptable,
+		}))
 		return err
 	}
-	conn := newConn(h, l.s, iq, true, MaxBufferSize)
-	h.addStream(iq.Open.SID, conn)
+	_, err := xmlstream.Copy(e, iq.Result(nil))
+	if err != nil {
+		h.rmStream(iq.Open.SID)
+		return err
+	}
 
 	// Only hold the lock for the lookup: the hand-off below may have to wait for
 	// the application.
@@ -361,6 +370,21 @@ func (h *Handler) addStream(sid string, conn *Conn) {
 		h.streams = make(map[string]*Conn)
 	}
 	h.streams[sid] = conn
+}
+
+// addStreamIfFree registers the stream unless its session ID is in use.
+func (h *Handler) addStreamIfFree(sid string, conn *Conn) bool {
+	h.mu.Lock()
+	defer h.mu.Unlock()
+
+	if _, ok := h.streams[sid]; ok {
+		return false
+	}
+	if h.streams == nil {
+		h.streams = make(map[string]*Conn)
+	}
+	h.streams[sid] = conn
+	return true
 }
 
 func (h *Handler) rmStream(sid string) {
